@@ -435,6 +435,9 @@ class Interp:
                         return const(bool(r))
                 except TypeError:
                     pass
+            if p[1] in ("Is", "IsNot") and ((is_const(p[3], None) and p[2][0] in ("ref", "tuple", "drawn", "fstr"))
+                                            or (is_const(p[2], None) and p[3][0] in ("ref", "tuple", "drawn", "fstr"))):
+                return const(p[1] == "IsNot")
             if p[1] in ("In", "NotIn") and is_const(p[2]):
                 o = self.obj(p[3])
                 if isinstance(o, HList) and all(sg[0] == "e" and is_const(sg[1]) for sg in o.segs):
